@@ -1,0 +1,21 @@
+//go:build verif
+
+// Copyright 2026 The Scriggo Authors. All rights reserved.
+// Use of this source code is governed by a BSD-style
+// license that can be found in the LICENSE file.
+
+package compiler
+
+// Verification hooks for property C18 (build tag "verif"). They add no
+// behaviour: they only make rooted callable from the bridge package
+// verifhook/c18.
+
+// VerifC18Rooted calls rooted.
+func VerifC18Rooted(parent, name string) (string, error) {
+	return rooted(parent, name)
+}
+
+// VerifC18ValidTemplatePath calls ValidTemplatePath.
+func VerifC18ValidTemplatePath(path string) bool {
+	return ValidTemplatePath(path)
+}
